@@ -202,11 +202,20 @@ pub struct Odometer {
     digits: Vec<u32>,
     done: bool,
     pub count: u64,
+    /// the first `fixed` digits are never advanced (enumerate only the subtree below that prefix)
+    fixed: usize,
+    /// set by the first step: does the prefix exist in the tree (every fixed digit below its radix)?
+    pub prefix_valid: bool,
 }
 
 impl Odometer {
     pub fn new() -> Self {
-        Odometer { digits: Vec::new(), done: false, count: 0 }
+        Odometer { digits: Vec::new(), done: false, count: 0, fixed: 0, prefix_valid: true }
+    }
+
+    /// enumerate only the choice sequences that start with `prefix`
+    pub fn with_prefix(prefix: &[u32]) -> Self {
+        Odometer { digits: prefix.to_vec(), done: false, count: 0, fixed: prefix.len(), prefix_valid: true }
     }
 
     /// Runs `f` with the current digit vector and advances. Returns None when the space is
@@ -220,12 +229,27 @@ impl Odometer {
         let r = f(&mut tape);
         let radices = tape.radices.take().unwrap();
         self.count += 1;
+        if self.count == 1 && self.fixed > 0 {
+            // the prefix is a real path iff every fixed digit is below the radix met there (a run that made fewer
+            // draws than the prefix is long only matches the all-zero continuation)
+            for i in 0..self.fixed {
+                let ok = match radices.get(i) {
+                    Some(r) => digits[i] < *r,
+                    None => digits[i] == 0,
+                };
+                if !ok {
+                    self.prefix_valid = false;
+                    self.done = true;
+                    return Some(r);
+                }
+            }
+        }
         // advance: digits padded with zeros to the number of draws made
         let mut d = digits;
         d.resize(radices.len(), 0);
         let mut i = d.len();
         loop {
-            if i == 0 {
+            if i <= self.fixed {
                 self.done = true;
                 break;
             }
